@@ -188,6 +188,9 @@ pub mod rpc;
 pub mod serialization;
 pub mod thread_local;
 pub mod time;
+#[cfg(slawlor_ractor_verif)]
+#[path = "/verif/hooks/ractor_root.rs"]
+pub mod verif_hooks;
 
 use concurrency::JoinHandle;
 #[cfg(not(feature = "async-trait"))]
